@@ -1,5 +1,5 @@
 ENGINES = [
- {"name": "pyvc", "path": "/verif/pyvc", "serves_properties": ["C01", "C02", "C03", "C04", "C15", "C19"],
+ {"name": "pyvc", "path": "/verif/pyvc", "serves_properties": ["C01", "C02", "C03", "C04", "C14", "C15", "C19"],
   "kind_free_text": "own verification-condition generator: symbolic execution of the real function ASTs (re-read from /repo every run) against sidecar contracts (/verif/contracts), obligations discharged by z3 5.1 (cvc5 on unknown), validated finite-shape counter-models for refutation"},
  {"name": "bounded", "path": "/verif/bounded", "serves_properties": ["C%02d" % i for i in range(1, 21)],
   "kind_free_text": "bounded stand-ins: the property's contract evaluated at run time on the real code over enumerated small scopes (deal/icontract/plain wrappers), never counted as proved"},
@@ -22,6 +22,10 @@ CHECKS = [
   "technique": "contract-based deductive verification (pyvc VC generation from the real AST + z3) + bounded contract check"},
 ]
 CHECKS += [
+ {"id": "C14", "category": "proof", "design_ref": "5/C14",
+  "text": "Simulator.simulate_protocol is proved (loop invariant over protocol rows, using only the proved contract of Simulator.simulate) to advance the absolute time reached by exactly the cumulative end of the last step, also when continuing an earlier simulation, or to record a failure. Bounded: 69 protocols x 8 prior histories x 2 forms x time grids against closed forms and a hand-stepped simulator (per-step parameter values, boundaries, fluxes).",
+  "note": "Proved part: time bookkeeping of simulate_protocol only (protocol rows abstracted as cumulative seconds, positive and increasing). That step i's parameter values are the ones applied, simulate_protocol_time_course and make_protocol are bounded only. update_parameters enters through an assumed frame.",
+  "technique": "contract-based deductive verification (pyvc + z3) + bounded contract check"},
  {"id": "C04", "category": "proof", "design_ref": "5/C04",
   "text": "Simulator.simulate is proved for all simulator states: a continuation is refused exactly when the requested end is not later than the absolute time already reached; otherwise the recorded segment ends exactly at the requested absolute time whatever the integrator's shifted clock, or exactly one failure is recorded and results are unchanged. Bounded: all operation histories up to length 3 over 22 operations (simulate, time courses, overrides, parameter updates, steady state, clearing, protocols) against a closed-form piecewise oracle.",
   "note": "Proved part: Simulator.simulate only; _handle_simulation_results (pandas frame construction) and the integrator protocol enter through assumed contracts (an integrator asked for T returns, on success, a time course ending at T). simulate_time_course, update_variables, steady-state continuation and the trajectories are bounded only.",
@@ -39,7 +43,7 @@ CHECKS += [
   "note": "Assumes the file-system/pickle model of pyvc/lib_fs.py (atomic Path.replace, partial file until close), default Cache functions, temp name not a result name, distinct keys have distinct names. parallelise (pool, ordering) is bounded only.",
   "technique": "contract-based deductive verification (pyvc + z3) incl. crash invariant + bounded contract check"},
 ]
-for _p, _ref in [("C05","5/C05"),("C06","5/C06"),("C07","5/C07"),("C08","5/C08"),("C09","5/C09"),("C10","5/C10"),("C11","5/C11"),("C12","5/C12"),("C13","5/C13"),("C14","5/C14"),("C16","5/C16"),("C17","5/C17"),("C18","5/C18"),("C20","5/C20")]:
+for _p, _ref in [("C05","5/C05"),("C06","5/C06"),("C07","5/C07"),("C08","5/C08"),("C09","5/C09"),("C10","5/C10"),("C11","5/C11"),("C12","5/C12"),("C13","5/C13"),("C16","5/C16"),("C17","5/C17"),("C18","5/C18"),("C20","5/C20")]:
     CHECKS.append({"id": _p, "category": "exploration", "design_ref": _ref, "text": _BN, "note": "Run-time contract on the real code; oracle independent of the code under test (closed forms / recomputation from the property statement); tolerances, bounds and exclusions stated in the evidence and in proposed/" + _p + "/NOTES.md.", "technique": _B, "engine": "bounded"})
 CHECKS.sort(key=lambda c: c["id"])
 NOT_APPLICABLE = [{"property_id": f"C{i:02d}", "reason": _PENDING} for i in range(1, 21) if f"C{i:02d}" not in {c["id"] for c in CHECKS}]
